@@ -22,12 +22,12 @@
      list   seq of rows [name, hap (0 = none), ps (0 = none), chr]   (haplotag list)
      stats  [rows : seq of [c, variants, het, hetsnvs, phased, unphased, singletons, blocks],
              blist : seq of <<c, phase set, from, to, variants>>]     (--tsv, --block-list)
-     cmp    [rows : seq of [c, all : [nblk, cov, pairs, sw, sfs, sff, ham, dg],
+     cmp    [rows : seq of [c, het0 (heterozygous variants of the first file), all : [nblk, cov, pairs, sw, sfs, sff, ham, dg],
                                lg  : [pairs, sw, sfs, sff, ham, dg]]]  (--tsv-pairwise; error
             counts in haplotype units = 2 x the printed number, as in Compare.tla)
      split  [out : <<untagged, h1, h2>> each a seq of [name, id, len], rows : histogram rows]
 
-   PART 1 - the cross-command invariants W1..W11.  They are METAMORPHIC: each ties the
+   PART 1 - the cross-command invariants W1..W12.  They are METAMORPHIC: each ties the
    outputs of two or more commands together and none needs to know which phasing is right.
    They are written over (fs, S): all instances in which a file of S takes part (S = DOMAIN fs
    for the model checker, S = the files the last command wrote for trace validation).
@@ -231,8 +231,14 @@ W10b(fs, S, errfree) == \A r, q \in DOMAIN fs : (errfree /\ Touches(S, {r, q}) /
 G11(fs, b, d) == Is(fs, b, "bam", "haplotag") /\ Is(fs, d, "bam", "haplotag") /\ TagPair(fs, Arg(fs, b, 1), Arg(fs, d, 1))
 W11(fs, S) == \A b, d \in DOMAIN fs : (Touches(S, {b, d}) /\ G11(fs, b, d)) => Tags(fs[b].c) = Tags(fs[d].c)
 
+(* ---- W12 compare and stats agree on which calls of a file are heterozygous ---- *)
+G12(fs, r, q) == Is(fs, r, "cmp", "compare") /\ Is(fs, q, "stats", "stats") /\ fs[q].opt.smp = fs[r].opt.smp /\ Arg(fs, q, 1) = Arg(fs, r, 1)
+SameHets(cm, st) == /\ RowChroms(cm.rows) = RowChroms(st.rows)
+                    /\ \A k \in RowChroms(cm.rows) : RowOf(cm.rows, k).het0 = RowOf(st.rows, k).het
+W12(fs, S) == \A r, q \in DOMAIN fs : (Touches(S, {r, q}) /\ G12(fs, r, q)) => SameHets(fs[r].c, fs[q].c)
+
 ClauseNames == <<"W1a", "W1b", "W2a", "W2b", "W3a", "W3b", "W3c", "W3d", "W4a", "W4b", "W5", "W5c", "W6", "W7", "W7n",
-                 "W8a", "W8b", "W9", "W10", "W10b", "W11">>
+                 "W8a", "W8b", "W9", "W10", "W10b", "W11", "W12">>
 Clause(name, fs, S, errfree) ==
     CASE name = "W1a" -> W1a(fs, S) [] name = "W1b" -> W1b(fs, S)
       [] name = "W2a" -> W2a(fs, S) [] name = "W2b" -> W2b(fs, S)
@@ -246,6 +252,7 @@ Clause(name, fs, S, errfree) ==
       [] name = "W10" -> W10(fs, S, errfree)
       [] name = "W10b" -> W10b(fs, S, errfree)
       [] name = "W11" -> W11(fs, S)
+      [] name = "W12" -> W12(fs, S)
 Live(name, fs) ==
     LET D == DOMAIN fs IN
     CASE name = "W1a" -> \E r \in D : G1a(fs, r)            [] name = "W1b" -> \E r, q \in D : G1b(fs, r, q)
@@ -261,6 +268,7 @@ Live(name, fs) ==
       [] name = "W10" -> \E r \in D : G10(fs, r)
       [] name = "W10b" -> \E r, q \in D : G10b(fs, r, q)
       [] name = "W11" -> \E b, d \in D : G11(fs, b, d)
+      [] name = "W12" -> \E r, q \in D : G12(fs, r, q)
 
 -----------------------------------------------------------------------------
 (* PART 2 : the design of the commands *)
@@ -285,7 +293,7 @@ LgRow_(rep, f) == [pairs |-> rep.n - 1, sw |-> rep.sw, sfs |-> rep.sfmin - f, sf
 LgRow(rep) == LgRow_(rep, CHOOSE f \in rep.sfF : TRUE)
 (* the largest block: the first of the longest ones (by leftmost variant) *)
 FirstLongest(B) == CHOOSE blk \in CP!LongestOf(B) : \A o \in CP!LongestOf(B) : MinSet(blk) <= MinSet(o)
-CmpRowOf_(k, F, B) == [c |-> k, all |-> ErrRow(CP!Totals(F, 2)),
+CmpRowOf_(k, F, B) == [c |-> k, het0 |-> Cardinality({ j \in DOMAIN F[1] : CP!Het(F[1][j].a) /\ \A i \in DOMAIN F[1][j].a : F[1][j].a[i] >= 0 }), all |-> ErrRow(CP!Totals(F, 2)),
                        lg |-> IF B = {} THEN LgRow(CP!EmptyReport) ELSE LgRow(CP!ReportOf(F, FirstLongest(B), 2))]
 CmpRowOf(k, F) == CmpRowOf_(k, F, CP!Blocks(F))
 CompareDesign(v, w, s) ==
